@@ -4,6 +4,7 @@ import (
 	"fmt"
 	"sort"
 	"strconv"
+	"strings"
 
 	"verif/sim/core"
 	"verif/sim/ref"
@@ -188,10 +189,30 @@ func genHostileRFC6902(r *core.RNG, doc map[string]any) []any {
 				op["value"] = genValue(r)
 			}
 		}
+		if rc := r.Stream(fmt.Sprintf("member-case/%d", len(ops))); rc.Chance(1, 6) {
+			// member names in another letter case: exact for one reader of the list, the same member for a case-insensitive one
+			name := core.Pick(rc, []string{"from", "from", "path", "op", "value"})
+			if v, has := op[name]; has {
+				variant := core.Pick(rc, []string{strings.ToUpper(name), strings.ToUpper(name[:1]) + name[1:], name[:1] + strings.ToUpper(name[1:2]) + name[2:]})
+				op[variant] = v
+				switch {
+				case name == "from" && rc.Chance(1, 3):
+					op["from"] = safe() // the exact member stays, harmless
+				default:
+					delete(op, name)
+				}
+			}
+		}
 		ops = append(ops, op)
-		if from, _ := op["from"].(string); kind == "copy" && protectedPointer(from) && r.Chance(2, 3) {
+		dest, _ := op["path"].(string)
+		from := ""
+		for _, name := range []string{"from", "From", "FROM", "fRom"} {
+			if f, _ := op[name].(string); protectedPointer(f) {
+				from = f
+			}
+		}
+		if kind == "copy" && dest != "" && protectedPointer(from) && r.Chance(2, 3) {
 			// a copy may share structure with its source: edits beneath the destination must not reach the source
-			dest := op["path"].(string)
 			token := core.Pick(r, []string{"0", "-", "id", "publicKeyJwk/x", "serviceEndpoint", "type", "0/id", "0/publicKeyJwk", "purposes/0"})
 			k2 := core.Pick(r, []string{"add", "remove", "replace"})
 			op2 := map[string]any{"op": k2, "path": dest + "/" + token}
